@@ -22,6 +22,7 @@ import Driver.SpecFmt
 import Driver.Threads
 import Driver.UsingSalt
 import Driver.Saslprep
+import Driver.VerifyFmtPbkdf
 /-
 Line protocol driver: `<suite> <op> <args…>` per input line, one result line out.
 Compiled (`lean_exe modeldrv`); nothing imported here touches Mathlib.
@@ -52,6 +53,7 @@ def dispatch (line : String) : String :=
   | "threads" :: rest => Driver.Threads.handle rest
   | "usalt" :: rest => Driver.UsingSalt.handle rest
   | "sasl" :: rest => Driver.Saslprep.handle rest
+  | "vfyP" :: rest => Driver.VerifyFmtPbkdf.handle rest
   | _ => Driver.bad
 
 partial def loop (h : IO.FS.Stream) (out : IO.FS.Stream) : IO Unit := do
